@@ -82,52 +82,51 @@ theorem gcLoop_spec (lim : Limits) (s : Store) (sz : Nat → Nat) :
       refine ⟨by simp, Nat.le_refl _, ?_, ?_, trivial, Nat.le_refl _, by omega⟩
       · intro _ hlt; omega
       · intro hle; exact hle
-    · simp only [hfull, if_false] at h
+    · rw [if_neg hfull] at h
       cases hg : s.seg? loc.seg with
-      | none => simp [hg] at h
+      | none => rw [hg] at h; cases h
       | some g =>
-        simp only [hg] at h
-        by_cases hov : used + (List.map sz (List.take (lim.responseMax - acc.length) (g.getFrom loc))).sum > lim.dataMax
-        · simp [hov] at h
-        · simp only [hov, if_false] at h
-          have hroom : 1 ≤ lim.responseMax - acc.length := by omega
-          by_cases hpart : (List.take (lim.responseMax - acc.length) (g.getFrom loc)).length < (g.getFrom loc).length
+        rw [hg] at h
+        dsimp only at h
+        have hroom : 1 ≤ lim.responseMax - acc.length := by omega
+        have hent : entryIds s loc = g.getFrom loc := by simp [entryIds, hg]
+        generalize htk : List.take (lim.responseMax - acc.length) (g.getFrom loc) = tk at h
+        have htklen : tk.length = min (lim.responseMax - acc.length) (g.getFrom loc).length := by
+          rw [← htk, List.length_take]
+        split at h
+        · cases h
+        · split at h
           · -- the response filled up inside this segment
-            simp only [hpart, if_true, Except.ok.injEq] at h
-            subst h
-            have hlen : (List.take (lim.responseMax - acc.length) (g.getFrom loc)).length
-                = lim.responseMax - acc.length := by
-              rw [List.length_take] at hpart ⊢; omega
-            have hres := entryIds_resume hg _ hpart
-            have hset : ((pre ++ loc :: rest).set pre.length
-                ⟨loc.mc + (List.take (lim.responseMax - acc.length) (g.getFrom loc)).length, loc.seg⟩).drop pre.length
-                = ⟨loc.mc + (List.take (lim.responseMax - acc.length) (g.getFrom loc)).length, loc.seg⟩ :: rest := by
+            rename_i hpart
+            cases h
+            have hlen : tk.length = lim.responseMax - acc.length := by omega
+            have hres := entryIds_resume hg tk.length hpart
+            have hset : ((pre ++ loc :: rest).set pre.length ⟨loc.mc + tk.length, loc.seg⟩).drop pre.length
+                = ⟨loc.mc + tk.length, loc.seg⟩ :: rest := by
               rw [List.set_append_right _ _ (Nat.le_refl _)]
               simp
             simp only [applyResume]
             rw [hset]
-            have hent : entryIds s loc = g.getFrom loc := by simp [entryIds, hg]
+            have htd : tk ++ (g.getFrom loc).drop tk.length = g.getFrom loc := by
+              rw [hlen, ← htk]; exact List.take_append_drop _ _
             refine ⟨?_, ?_, ?_, ?_, by simp, Nat.le_refl _, by simp⟩
             · simp only [streamIds_cons, hres, hent]
-              rw [List.append_assoc, ← List.append_assoc (List.take _ _), List.take_append_drop]
+              rw [List.append_assoc, ← List.append_assoc tk, htd]
             · simp only [weight_cons, hres, hent, List.length_drop]; omega
             · intro _ _
-              simp only [weight_cons, hres, hent, List.length_drop]
-              rw [hlen] at hpart ⊢; omega
+              simp only [weight_cons, hres, hent, List.length_drop]; omega
             · intro _
-              simp only [List.length_append, hlen]; omega
+              simp only [List.length_append]; omega
           · -- the whole (rest of the) segment fits
-            simp only [hpart, if_false] at h
-            have htake : List.take (lim.responseMax - acc.length) (g.getFrom loc) = g.getFrom loc := by
-              apply List.take_of_length_le
-              rw [List.length_take] at hpart; omega
-            rw [htake] at h
+            rename_i hpart
+            have htake : tk = g.getFrom loc := by
+              rw [← htk]; apply List.take_of_length_le; omega
+            subst htake
             have hpre : (pre ++ [loc]).length = pre.length + 1 := by simp
             rw [← hpre] at h
             obtain ⟨h1, h2, h3, h4, h5, h6, h7⟩ := ih (pre ++ [loc]) _ _ b h
             have happ : pre ++ [loc] ++ rest = pre ++ loc :: rest := by simp
             rw [happ] at h1 h2 h3 h5 h7
-            have hent : entryIds s loc = g.getFrom loc := by simp [entryIds, hg]
             refine ⟨?_, ?_, ?_, ?_, h5, by omega, h7⟩
             · rw [h1]; simp [hent]
             · simp only [weight_cons]; omega
@@ -135,7 +134,7 @@ theorem gcLoop_spec (lim : Limits) (s : Store) (sz : Nat → Nat) :
             · intro hle
               by_cases hr : acc.length + (g.getFrom loc).length ≤ lim.responseMax
               · exact h4 (by simpa using hr)
-              · rw [List.length_take] at hpart; omega
+              · omega
 
 /-! ## locations of a stream -/
 
